@@ -101,7 +101,9 @@ def pae_get_message_ref(self):
 
 
 def finalize_ref(self, scope):
-    """_finalize: remembers the scope the trace will be rendered from and the tail of the current traceback outside the glom package"""
+    """_finalize: remembers the scope the trace will be rendered from and the tail of the current traceback outside the glom package; the
+    message is rendered from THIS scope (C05: 'begins with the root target' of the glom() call that raised), so a message memoised by an
+    earlier str() of the same error object (finalised by an inner glom() call, or copied from one) is discarded"""
     etype, evalue, _ = sys.exc_info()
     tb_lines = traceback.format_exc().strip().splitlines()
     limit = 0
@@ -114,6 +116,7 @@ def finalize_ref(self, scope):
     if set(self._tb_lines[0]) <= {' ', '^', '~'}:
         self._tb_lines = self._tb_lines[1:]
     self._scope = scope
+    self._finalized_str = None
 
 
 def from_text_ref(cls, text):
